@@ -14,7 +14,9 @@ LEVEL = 'model_checking'
 ZONES = [{'name': 'zz', 'start': 0x20, 'end': 0x2F}]
 CONFIGS = [
     ('o0-p1-le-16', R.Params(address_size=16, endian='little', origin=0, page_size=1, zones=ZONES)),
-    ('o3-p6-be-16', R.Params(address_size=16, endian='big', origin=3, page_size=6, zones=ZONES)),
+    # ... with two predefined data blocks above the code: they stay where the definition puts them and their names are labels
+    ('o3-p6-be-16-data', R.Params(address_size=16, endian='big', origin=3, page_size=6, zones=ZONES,
+                                  data=[{'name': 'blk', 'address': 0x60, 'value': 0xA5, 'size': 2}, {'name': 'blk2', 'address': 0x70, 'value': 0x5A, 'size': 1}])),
     # a redefined GLOBAL zone that starts below the default origin: the first line still sits at the origin
     ('o16-p4-le-8-global8', R.Params(address_size=8, endian='little', origin=0x10, page_size=4,
                                      zones=ZONES + [{'name': 'GLOBAL', 'start': 8, 'end': 0xFF}])),
@@ -39,7 +41,7 @@ CORE = [s for s in SIGMA if s not in (('label', '_f0'), ('brr', ('lab', 'G1')), 
 
 def isa_of(p):
     return probe_isa(p.address_size, p.endian, origin=p.origin or None, page_size=p.page_size if p.page_size != 1 else None,
-                     zones=p.zones, embedded_strings=True)
+                     zones=p.zones, embedded_strings=True, data=p.data or None)
 
 
 def meta(tier):
@@ -62,7 +64,7 @@ def meta(tier):
     }
 
 
-def build(hist):
+def build(hist, blocks=()):
     stmts = [('const', 'K0', 7), ('const', 'K1', ('lab+', 'K0', 5))]       # K1 = K0+5: a constant defined by an expression
     defined = set()
     referenced = set()
@@ -86,7 +88,7 @@ def build(hist):
         tail += [('const', 'Z0', 0)]        # a constant whose value is 0, defined where the address is (mostly) not 0
     stmts += tail
     stmts += [('unmute',), ('unmute',), ('unmute',), ('unmute',), ('unmute',),
-              ('data', 2, [('lab', 'G0'), ('lab', 'G1'), ('lab', '_f0'), ('lab', 'Z0')]), ('data', 1, [0xEE])]
+              ('data', 2, [('lab', 'G0'), ('lab', 'G1'), ('lab', '_f0'), ('lab', 'Z0')] + [('lab', b) for b in blocks]), ('data', 1, [0xEE])]
     return stmts
 
 
@@ -102,8 +104,10 @@ def shard(acc, tier, idx, n):
     for ci, (cname, params) in enumerate(CONFIGS):
         isa = isa_of(params)
 
+        blocks = tuple(d['name'] for d in params.data)
+
         def ok(h):
-            return R.assemble(params, {'main.asm': build(h)}).status != 'REJECT'
+            return R.assemble(params, {'main.asm': build(h, blocks)}).status != 'REJECT'
 
         seen = set()
         for alphabet, depth in ((SIGMA, d_full), (CORE, d_core)):
@@ -112,7 +116,7 @@ def shard(acc, tier, idx, n):
             for h in histories(alphabet, depth, idx, n, prefix_ok=ok):
                 if alphabet is CORE and len(h) <= d_full:
                     continue        # already executed by the full-alphabet pass
-                files = {'main.asm': build(h)}
+                files = {'main.asm': build(h, blocks)}
                 ref, out, msg = run_program(acc, params, isa, files, nontrivial=((ci, h) if moving(h) else None),
                                             sample=(len(h) == depth))
                 acc.state((ci, ref.state_key) if ref.status != 'REJECT' else (ci, 'REJECT'))
